@@ -1,6 +1,7 @@
 import P9Model.Props.C04
 import P9Model.Session.Isolation
 import P9Model.Lemmas.Lock.PanicSafe
+import P9Model.Session.Errors
 /-!
 # C15 — Fault containment: backend errors and panics affect only their request
 
@@ -88,5 +89,40 @@ while a backend call runs is released by a `defer` placed right after its acquis
 panic that `handle` recovers from unwinds through every critical section it was in, and later
 requests on the same paths, fids and connections are not blocked by it. -/
 theorem locks_released_when_a_backend_call_panics : Locks.panicSafeOk = true := Locks.panic_safe_fact
+
+/-! ### the errno of a failing backend call is what the client gets -/
+
+/-- **A failing `WriteAt` is answered with its errno** – whatever the backend reports next to the
+error (a count it managed to write is not part of the outcome): Rlerror(e), the call is the only
+one made, the fid stays bound and its count is back where it was. -/
+theorem write_error_is_reported (m : Msg) (r e : Nat) (rest : List Res) (c : Ctx) (h : Bound (m.int 0) r c)
+    (hx : (c.st.refs.getD r default).x.op = 0) (hop : (c.st.refs.getD r default).opened = true)
+    (hmode : ((c.st.refs.getD r default).openFlags &&& 3 == 0) = false)
+    (ht : c.tape = .err e :: rest) :
+    hTwrite m c = .ok (rerr e)
+      (unpinned r (called (c.st.refs.getD r default).file "WriteAt" [m.int 1] [m.payload] [] rest (pinned r c))) := by
+  unfold hTwrite
+  refine withFid_reply _ r _ c _ _ h ?_ rfl
+  have hxr := pinned_getD r c h.inRange
+  have htp : (pinned r c).tape = .err e :: rest := ht
+  simp only [bind, pure, getRef_eval, hxr, hx, hop, hmode, Bool.not_true, Bool.false_eq_true, ↓reduceIte,
+    call_eval _ _ _ _ _ (pinned r c) (.err e) rest htp (by simp)]
+
+
+/-- **A failing `ReadAt` is answered with its errno**, whatever it delivered before failing. -/
+theorem read_error_is_reported (m : Msg) (r e : Nat) (rest : List Res) (c : Ctx) (h : Bound (m.int 0) r c)
+    (hcnt : ¬ m.int 2 > maxLen) (hms : (C04.msizeOf c == 0) = false)
+    (hx : (c.st.refs.getD r default).x.op = 0) (hop : (c.st.refs.getD r default).opened = true)
+    (hmode : ((c.st.refs.getD r default).openFlags &&& 3 == 1) = false)
+    (ht : c.tape = .err e :: rest) :
+    hTread m c = .ok (rerr e)
+      (unpinned r (called (c.st.refs.getD r default).file "ReadAt" [min (m.int 2) (C04.msizeOf c - 11), m.int 1] [] [] rest (pinned r c))) := by
+  unfold hTread
+  refine withFid_reply _ r _ c _ _ h ?_ rfl
+  have hxr := pinned_getD r c h.inRange
+  have htp : (pinned r c).tape = .err e :: rest := ht
+  simp only [bind, pure, getRef_eval, C04.connMsize_eval, C04.msizeOf_pinned, hxr, hcnt, hms, hx, hop, hmode, Bool.not_true,
+    Bool.false_eq_true, ↓reduceIte,
+    call_eval _ _ _ _ _ (pinned r c) (.err e) rest htp (by simp)]
 
 end P9.C15
